@@ -216,8 +216,11 @@ fn universe(tier: Tier, v: &mut impl Visitor) {
     v.visit::<f64, Dual2Vec<f64, f64, Const<2>>>(Dims::n(2));
     v.visit::<f64, Dual<Dual64, f64>>(Dims::NONE);
     v.visit::<f64, Dual2<Dual2_64, f64>>(Dims::NONE);
+    // the hyper-dual vector type (two gradient blocks whose cross terms only differ when the
+    // operands' gradients are not proportional) and a third-order type over a dual inner type
+    v.visit::<f64, HyperDualVec<f64, f64, Const<2>, Const<2>>>(Dims::mn(2, 2));
+    v.visit::<f64, Dual3<Dual64, f64>>(Dims::NONE);
     if tier == Tier::Thorough {
-        v.visit::<f64, HyperDualVec<f64, f64, Const<2>, Const<2>>>(Dims::mn(2, 2));
         v.visit::<f32, Dual3_32>(Dims::NONE);
         v.visit::<f32, HyperDual32>(Dims::NONE);
         v.visit::<f32, Dual2Vec<f32, f32, Const<2>>>(Dims::n(2));
